@@ -1,5 +1,8 @@
 (* Invariants of the bulkhead model and the lemmas Props/C01.v and Props/C07.v use. *)
-From TR Require Import Lib.Base Model.Bulkhead.
+From TR Require Import Lib.Base Lib.TokioTime Model.Bulkhead.
+Arguments ceil_ms : simpl never.
+Ltac case_tick :=
+  cbv zeta; match goal with |- context [ceil_ms ?x <=? ?y] => destruct (ceil_ms x <=? y) end.
 
 (* ---------- list helpers ---------- *)
 Lemma mem_In i l : mem i l = true <-> In i l.
@@ -86,7 +89,7 @@ Record Cj (c : cfg) (s : st) (j : nat) : Prop := {
   c_run : In j (running s) <-> cs s j = Running;
   c_ent : (cs s j = Created \/ is_waiting (cs s j)) -> entered s j = false;
   c_dl : forall d, cs s j = Waiting (Some d) ->
-           exists a w, arrival s j = Some a /\ max_wait c = Some w /\ d = a + w;
+           exists a w, arrival s j = Some a /\ max_wait c = Some w /\ d = ceil_ms (a + w);
   c_arr : forall a, arrival s j = Some a -> a <= now s
 }.
 
@@ -251,7 +254,7 @@ Proof.
     destruct (free s) as [|f] eqn:Ef.
     + (* no permit *)
       assert (Hstep : forall dl0,
-                (forall d, dl0 = Some d -> exists w, max_wait c = Some w /\ d = now s + w) ->
+                (forall d, dl0 = Some d -> exists w, max_wait c = Some w /\ d = ceil_ms (now s + w)) ->
                 Inv c (mkSt (now s') (free s') (queue s' ++ [i]) (granted s') (running s')
                             (upd (cs s') i (Waiting dl0)) (gate s') (woken s') (entered s') (arrival s'))).
       { intros dl0 Hdl0. split.
@@ -270,7 +273,8 @@ Proof.
           + destruct (HC' j Hne) as [Hw Hr He Hd Ha]. constructor; cbn in *; rewrite ?upd_other in * by exact Hne; try assumption.
             rewrite <- Hw. rewrite in_app_iff. cbn. split; [intros [[H|[H|[]]]|H]; [tauto|congruence|tauto]|tauto]. }
       destruct (max_wait c) as [w|] eqn:Emw.
-      * destruct (w <=? 0) eqn:Ew; cbn [fst].
+      * cbv zeta. change (now s') with (now s).
+        destruct (ceil_ms (now s + w) <=? now s) eqn:Ew; cbn [fst].
         -- split.
            ++ destruct HG' as [Hc Hndq Hndg Hndr Hd Hf]. constructor; cbn in *; assumption.
            ++ intros j. destruct (Nat.eq_dec j i) as [->|Hne].
@@ -505,9 +509,10 @@ Proof.
   unfold poll. cbn. destruct (cs s i) as [|dl| | |] eqn:Ecs.
   - destruct (free s) as [|f].
     + destruct (max_wait c) as [w|] eqn:Emw.
-      * destruct (w <=? 0) eqn:Ew; cbn.
+      * destruct (ceil_ms (now s + w) <=? now s) eqn:Ew; cbn.
         -- split; [discriminate|]. intros _. exists w, (now s). rewrite upd_same.
-           apply Z.leb_le in Ew. repeat split; try reflexivity; try lia.
+           apply Z.leb_le in Ew. pose proof (ceil_ms_ge (now s + w)) as Hce.
+           repeat split; try reflexivity; try lia.
            ++ apply Hei. left. reflexivity.
            ++ apply upd_same.
            ++ intros H. apply Hri in H. discriminate.
@@ -520,7 +525,8 @@ Proof.
       destruct (d <=? now s) eqn:Ed; cbn; [|split; discriminate].
       split; [discriminate|]. intros _.
       destruct (Hdi d eq_refl) as [a [w [Ha [Hw Hd]]]]. exists w, a.
-      apply Z.leb_le in Ed. repeat split; try assumption; try lia.
+      apply Z.leb_le in Ed. pose proof (ceil_ms_ge (a + w)) as Hce.
+      repeat split; try assumption; try lia.
       * apply Hei. right. eexists. reflexivity.
       * apply upd_same.
       * intros H. apply Hri in H. discriminate.
@@ -549,13 +555,21 @@ Proof.
   - apply Z.leb_le. lia.
 Qed.
 
-(* the deadline of a waiter is its arrival plus max_wait *)
+(* the deadline of a waiter is its arrival plus max_wait, rounded up to the timer's
+   millisecond tick: never early, less than 1 ms late, exact on whole-millisecond values *)
 Lemma deadline_is_arrival_plus_wait c evs :
   Forall (fun s => forall i d, cs s i = Waiting (Some d) ->
-                     exists a w, arrival s i = Some a /\ max_wait c = Some w /\ d = a + w)
+                     exists a w, arrival s i = Some a /\ max_wait c = Some w /\
+                                 d = ceil_ms (a + w) /\ a + w <= d < a + w + MS /\
+                                 (forall k, a + w = k * MS -> d = a + w))
          (states (step_st c) (init c) evs).
 Proof.
-  eapply Forall_impl; [|apply reach_Inv]. intros s [_ HC] i d H. apply (HC i). exact H.
+  eapply Forall_impl; [|apply reach_Inv]. intros s [_ HC] i d H.
+  destruct (HC i) as [_ _ _ Hd _]. destruct (Hd d H) as [a [w [Ha [Hw Hdd]]]].
+  exists a, w. repeat split; try assumption.
+  - subst d. apply ceil_ms_ge.
+  - subst d. apply ceil_ms_lt.
+  - intros k Hk. subst d. rewrite Hk. apply ceil_ms_whole.
 Qed.
 
 (* a request never reaches the inner service after its caller was rejected or dropped:
@@ -571,7 +585,7 @@ Proof.
     + assert (Hu : forall A (f : nat -> A) v, upd f j v i = f i) by (intros; apply upd_other; congruence).
       destruct (cs s j) as [|dl| | |].
       * destruct (free s).
-        -- destruct (max_wait c) as [w|]; [destruct (w <=? 0)|]; cbn; rewrite ?Hu; split; reflexivity.
+        -- destruct (max_wait c) as [w|]; [case_tick|]; cbn; rewrite ?Hu; split; reflexivity.
         -- unfold start, poll_running. cbn. destruct (gate s j); cbn;
              rewrite ?release_entered, ?release_cs; cbn; rewrite ?Hu; split; reflexivity.
       * destruct (mem j (granted s)).
@@ -607,10 +621,10 @@ Qed.
 
 (* non-vacuity: a concrete reachable state with a queued waiter past its deadline *)
 Example ex_reject :
-  let c := {| cap := 1%nat; max_wait := Some 10 |} in
-  let s := fold_left (step_st c) [Poll 0%nat; Poll 1%nat; Advance 10] (init c) in
-  cs s 1%nat = Waiting (Some 10) /\ ~ In 1%nat (granted s) /\ r (snd (poll c s 1%nat)) = 3 /\ inflight s = 1%nat.
-Proof. cbn. repeat split; try reflexivity. intros []. Qed.
+  let c := {| cap := 1%nat; max_wait := Some 10000000 |} in    (* 10 ms *)
+  let s := fold_left (step_st c) [Poll 0%nat; Poll 1%nat; Advance 10000000] (init c) in
+  cs s 1%nat = Waiting (Some 10000000) /\ ~ In 1%nat (granted s) /\ r (snd (poll c s 1%nat)) = 3 /\ inflight s = 1%nat.
+Proof. vm_compute. repeat split; try reflexivity. intros []. Qed.
 
 (* ---------- two more invariants ---------- *)
 Definition Wk (s : st) : Prop := forall j, In j (granted s) -> woken s j = true.
@@ -656,7 +670,7 @@ Proof.
     { apply (Wk_clear s i); [exact HW| |reflexivity|reflexivity]. apply (not_granted_unless_waiting c); [exact HI|].
       rewrite Ecs. intros [dl H]; discriminate. }
     change (free s') with (free s). destruct (free s) as [|f].
-    + destruct (max_wait c) as [w|]; [destruct (w <=? 0)|]; cbn [fst]; exact HW'.
+    + destruct (max_wait c) as [w|]; [case_tick|]; cbn [fst]; exact HW'.
     + apply start_Wk. exact HW'.
   - change (granted s') with (granted s). destruct (mem i (granted s)) eqn:Emem.
     + apply start_Wk. intros j. cbn. rewrite in_remove_id. intros [Hj Hne].
@@ -740,7 +754,7 @@ Proof.
   change (cs s' i) with (cs s i).
   destruct (cs s i) as [|dl| | |] eqn:Ecs.
   - change (free s') with (free s). destruct (free s) as [|f].
-    + destruct (max_wait c) as [w|]; [destruct (w <=? 0)|]; cbn [fst];
+    + destruct (max_wait c) as [w|]; [case_tick|]; cbn [fst];
         (eapply En_upd; [| reflexivity | reflexivity | exact H']); discriminate.
     + apply start_En. exact H'.
   - change (granted s') with (granted s). destruct (mem i (granted s)).
@@ -835,7 +849,7 @@ Proof.
   - destruct (HC i) as [Hwi Hri _ _ _]. unfold poll. cbn.
     destruct (cs s i) as [|dl| | |] eqn:Ecs.
     + destruct (free s) as [|f].
-      * destruct (max_wait c) as [w|]; [destruct (w <=? 0)|]; reflexivity.
+      * destruct (max_wait c) as [w|]; [case_tick|]; reflexivity.
       * unfold start. match goal with |- context [poll_running ?s1 i true ?z] =>
           destruct (poll_running_inside s1 i true z) as [H1 H2]; rewrite H1, H2 end.
         reflexivity.
@@ -892,7 +906,7 @@ Proof.
   intros [HG HC]. destruct HG as [Hc Hq Hg Hr Hd Hf]. destruct (HC i) as [Hwi Hri _ _ _].
   unfold poll. cbn. destruct (cs s i) as [|dl| | |] eqn:E.
   - destruct (free s) as [|f] eqn:Ef.
-    + destruct (max_wait c) as [w|]; [destruct (w <=? 0)|]; cbn; lia.
+    + destruct (max_wait c) as [w|]; [case_tick|]; cbn; lia.
     + unfold start, poll_running. cbn. destruct (gate s i); cbn; lia.
   - destruct (mem i (granted s)) eqn:Em.
     + apply mem_In in Em. pose proof (length_remove_id i (granted s) Hg Em).
@@ -911,7 +925,7 @@ Lemma seen_counts_the_new_call c s i :
 Proof.
   intros _. unfold poll. cbn. destruct (cs s i) as [|dl| | |].
   - destruct (free s) as [|f].
-    + destruct (max_wait c) as [w|]; [destruct (w <=? 0)|]; cbn; discriminate.
+    + destruct (max_wait c) as [w|]; [case_tick|]; cbn; discriminate.
     + unfold start, poll_running. cbn. destruct (gate s i); cbn; reflexivity.
   - destruct (mem i (granted s)).
     + unfold start, poll_running. cbn. destruct (gate s i); cbn; reflexivity.
@@ -954,11 +968,32 @@ Proof. cbv zeta. unfold run_script. apply run_evs_cols. apply inv_init. Qed.
 
 (* ---------- C07: more about rejections and grants ---------- *)
 Lemma zero_wait_rejects c s i w :
-  cs s i = Created -> free s = 0%nat -> max_wait c = Some w -> w <= 0 ->
+  cs s i = Created -> free s = 0%nat -> max_wait c = Some w -> ceil_ms (now s + w) <= now s ->
   r (snd (poll c s i)) = 3 /\ started (snd (poll c s i)) = false /\ now (fst (poll c s i)) = now s.
 Proof.
   intros H1 H2 H3 H4. unfold poll. cbn. rewrite H1, H2, H3. apply Z.leb_le in H4. rewrite H4.
   cbn. repeat split; reflexivity.
+Qed.
+
+(* reject_when_full / the presets (zero wait) at a whole-millisecond instant *)
+Lemma zero_wait_rejects_on_tick c s i k :
+  cs s i = Created -> free s = 0%nat -> max_wait c = Some 0 -> now s = k * MS ->
+  r (snd (poll c s i)) = 3 /\ started (snd (poll c s i)) = false /\ now (fst (poll c s i)) = now s.
+Proof.
+  intros H1 H2 H3 H4. apply (zero_wait_rejects c s i 0 H1 H2 H3).
+  rewrite Z.add_0_r, H4, ceil_ms_whole. lia.
+Qed.
+
+(* ... and off the tick (sub-millisecond instants) the zero wait lasts until the next tick:
+   the caller is queued with the deadline ceil_ms now, less than 1 ms away *)
+Lemma zero_wait_off_tick c s i w :
+  cs s i = Created -> free s = 0%nat -> max_wait c = Some w -> now s < ceil_ms (now s + w) ->
+  r (snd (poll c s i)) = 0 /\ started (snd (poll c s i)) = false /\
+  cs (fst (poll c s i)) i = Waiting (Some (ceil_ms (now s + w))).
+Proof.
+  intros H1 H2 H3 H4. unfold poll. cbn. rewrite H1, H2, H3.
+  assert (H : ceil_ms (now s + w) <=? now s = false) by (apply Z.leb_gt; exact H4). rewrite H.
+  cbn. repeat split; try reflexivity. apply upd_same.
 Qed.
 
 Lemma granted_starts c s i dl :
@@ -1101,7 +1136,7 @@ Proof.
     assert (Hu : forall A (f : nat -> A) v, upd f i v j = f j) by (intros; apply upd_other; exact Hne).
     unfold poll. cbn. destruct (cs s i) as [|dl| | |].
     + destruct (free s).
-      * destruct (max_wait c) as [w|]; [destruct (w <=? 0)|]; cbn; rewrite ?Hu; reflexivity.
+      * destruct (max_wait c) as [w|]; [case_tick|]; cbn; rewrite ?Hu; reflexivity.
       * unfold start, poll_running. cbn. destruct (gate s i); cbn; rewrite ?release_cs; cbn; rewrite ?Hu; reflexivity.
     + destruct (mem i (granted s)).
       * unfold start, poll_running. cbn. destruct (gate s i); cbn; rewrite ?release_cs; cbn; rewrite ?Hu; reflexivity.
@@ -1152,6 +1187,7 @@ Proof.
   induction l as [|[[op a] b] t IH]; cbn [evs_of]; [constructor|].
   destruct (ev_of n (op, a, b)) as [e|] eqn:E; [|exact IH]. constructor; [|exact IH].
   unfold ev_of in E. destruct (op =? 3); [inversion E; exact I|].
+  destruct (op =? 6); [inversion E; exact I|].
   destruct ((0 <=? a) && (a <? Z.of_nat n)) eqn:Hr; cbn [negb] in E; [|discriminate].
   apply andb_true_iff in Hr. destruct Hr as [H0 H1]. apply Z.leb_le in H0. apply Z.ltb_lt in H1.
   assert (Hlt : (Z.to_nat a < n)%nat) by lia.
@@ -1272,10 +1308,10 @@ Qed.
    waiter is handed the permit (granted, woken, not yet polled) -- every hypothesis of
    granted_starts / granted_is_woken / conservation with a non-empty granted list is reachable *)
 Example ex_full_then_grant :
-  let c := {| cap := 2%nat; max_wait := Some 10 |} in
+  let c := {| cap := 2%nat; max_wait := Some 10000000 |} in
   let s := fold_left (step_st c) [Poll 0; Poll 1; Poll 2]%nat (init c) in
   let s' := step_st c s (Drop 0%nat) in
-  inflight s = 2%nat /\ queue s = [2%nat] /\ cs s 2%nat = Waiting (Some 10) /\
+  inflight s = 2%nat /\ queue s = [2%nat] /\ cs s 2%nat = Waiting (Some 10000000) /\
   granted s' = [2%nat] /\ woken s' 2%nat = true /\ inflight s' = 1%nat /\
   started (snd (poll c s' 2%nat)) = true /\ seen (snd (poll c s' 2%nat)) = 2 /\
   inside (history c [Poll 0; Poll 1; Poll 2; Drop 0; Poll 2]%nat) = [2; 1]%nat.
@@ -1284,8 +1320,8 @@ Proof. vm_compute. repeat split; reflexivity. Qed.
 (* idle after a history with an ok, an inner error, a panic, a wait timeout and cancellations
    of a waiting and of a running caller: the hypotheses of full_capacity_again are met *)
 Example ex_idle_after_history :
-  let c := {| cap := 2%nat; max_wait := Some 5 |} in
-  let evs := [Poll 0; Poll 1; Poll 2; Poll 3; Drop 3; Advance 5; Poll 2; Complete 0 OOk; Poll 0;
+  let c := {| cap := 2%nat; max_wait := Some 5000000 |} in
+  let evs := [Poll 0; Poll 1; Poll 2; Poll 3; Drop 3; Advance 5000000; Poll 2; Complete 0 OOk; Poll 0;
               Poll 4; Complete 4 OErr; Poll 4; Poll 5; Complete 5 OPanic; Poll 5; Drop 1]%nat in
   let s := fold_left (step_st c) evs (init c) in
   idle s /\ free s = 2%nat /\ cs s 6%nat = Created /\ cs s 7%nat = Created /\
@@ -1306,11 +1342,24 @@ Proof. vm_compute. repeat split; reflexivity. Qed.
 (* a queued waiter strictly before its deadline: hypotheses of rejected_at_deadline /
    waits_until_deadline *)
 Example ex_before_deadline :
-  let c := {| cap := 1%nat; max_wait := Some 10 |} in
-  let s := fold_left (step_st c) [Poll 0%nat; Advance 3; Poll 1%nat; Advance 4] (init c) in
-  cs s 1%nat = Waiting (Some 13) /\ ~ In 1%nat (granted s) /\ now s = 7 /\
-  r (snd (poll c s 1%nat)) = 0 /\ r (snd (poll c (advance s 6) 1%nat)) = 3.
+  let c := {| cap := 1%nat; max_wait := Some 10000000 |} in
+  let s := fold_left (step_st c) [Poll 0%nat; Advance 3000000; Poll 1%nat; Advance 4000000] (init c) in
+  cs s 1%nat = Waiting (Some 13000000) /\ ~ In 1%nat (granted s) /\ now s = 7000000 /\
+  r (snd (poll c s 1%nat)) = 0 /\ r (snd (poll c (advance s 6000000) 1%nat)) = 3.
 Proof. vm_compute. repeat split; try reflexivity. intros []; discriminate. Qed.
+
+(* sub-millisecond wait: 300 us asked at instant 0 -> the timer deadline is the 1 ms tick; still
+   pending at 900 us, Timeout at 1 ms (never early, less than 1 ms late); and a zero wait asked
+   off the tick (at 300 us) is not an immediate rejection either *)
+Example ex_submilli :
+  let c := {| cap := 1%nat; max_wait := Some 300000 |} in
+  let s := fold_left (step_st c) [Poll 0%nat; Poll 1%nat; Advance 900000] (init c) in
+  cs s 1%nat = Waiting (Some 1000000) /\ r (snd (poll c s 1%nat)) = 0 /\
+  r (snd (poll c (advance s 100000) 1%nat)) = 3 /\
+  let c0 := {| cap := 1%nat; max_wait := Some 0 |} in
+  let s0 := fold_left (step_st c0) [Poll 0%nat; Advance 300000] (init c0) in
+  r (snd (poll c0 s0 1%nat)) = 0 /\ cs (fst (poll c0 s0 1%nat)) 1%nat = Waiting (Some 1000000).
+Proof. vm_compute. repeat split; reflexivity. Qed.
 
 (* spare capacity mid-history: one caller runs, cap - 1 fresh callers are admitted *)
 Example ex_spare :
